@@ -1,17 +1,21 @@
 /-
-Model of the two caches of `lib/sqfs/src/data_reader.c` (C10): `get_block`, `precache_data_block`
-(cache keyed by the block's *location only* — D21), `precache_fragment_block` (keyed by fragment index),
-`sqfs_data_reader_read` and `sqfs_data_reader_get_fragment` on top of them, plus the *cacheless* reference
-(`…Spec`) that calls `get_block` afresh for every access and does not look at the reader object at all.
+Model of `lib/sqfs/src/data_reader.c` (C10): `get_block`, the two caches (`precache_data_block`, keyed by the
+block's location *and* size word; `precache_fragment_block`, keyed by fragment index, reset by
+`sqfs_data_reader_load_fragment_table`), and the public entry points on top of them:
+`sqfs_data_reader_read`, `sqfs_data_reader_get_block`, `sqfs_data_reader_get_fragment`, the stream
+(`sqfs_data_reader_create_stream`, `dr_stream_get_buffered_data`, `dr_stream_advance_buffer`) and
+`sqfs_data_reader_load_fragment_table`; plus the *cacheless* references (`…Spec`) that decode every block afresh
+and do not look at the reader object at all.
 
 File and codec are the abstract ones of `Sqfs.Model.MetaReader`.  The fragment table is a list of
-`(start_offset, size word)` (what `sqfs_frag_table_lookup` returns).  Byte counts and locations are `Nat`
-(`sqfs_u64`/`sqfs_u32` quantities that the harness keeps far below their wrap-around points; the wrap-around
-behaviour of `frag_off + frag_sz` etc. belongs to C05, not to the cache).
+`(start_offset, size word)` (what `sqfs_frag_table_lookup` returns; `Sqfs.C10P.fragTableRead` models how it is
+loaded).  Locations are `Nat` (a `sqfs_u64` start plus 24-bit on-disk sizes; their wrap-around at 2^64 is not
+modelled), `filesz -= block_size` of `get_block` and `frag_off + offset` of `read` wrap as in C.
 
-`keyOnWord = false` is the code as it is in /repo; `keyOnWord = true` models the repair of D21
-(`fixes/C10-data-reader-cache-key.patch`: a cached data block is reused only for the same location *and* the
-same size word).
+`keyOnWord = true` is the code as it is in /repo (since 36fa767 a cached data block is reused only for the same
+location *and* the same size word); `keyOnWord = false` is the code before that commit (D21), kept for the
+witness model.  `sfix = false` is the stream code as it is in /repo (a failing fragment lookup returns without
+resetting the stream: D33); `sfix = true` the code with `fixes/C10-stream-frag-fail.patch`.
 -/
 import Sqfs.Model.MetaReader
 namespace Sqfs.DataReader
@@ -137,9 +141,10 @@ def read (kw : Bool) (f : File) (unc : Codec) (d : DR) (ino : Inode) (offset siz
             match r.2.fragBlock with
             | none => ((errInternal, []), r.2)             -- unreachable: success leaves a block cached
             | some fb =>
-              if ino.fragOff + offset ≥ fb.2 then ((errOutOfBounds, []), r.2)
-              else if fb.2 - (ino.fragOff + offset) < size then ((errOutOfBounds, []), r.2)
-              else ((0, acc ++ (fb.1.drop (ino.fragOff + offset)).take size), r.2)
+              let fo := wrap64 (ino.fragOff + offset)       -- (frag_off + offset): sqfs_u32 + sqfs_u64
+              if fo ≥ fb.2 then ((errOutOfBounds, []), r.2)
+              else if fb.2 - fo < size then ((errOutOfBounds, []), r.2)
+              else ((0, acc ++ (fb.1.drop fo).take size), r.2)
 
 /-! ### the cacheless reference: every access decodes the block afresh; no reader object -/
 
@@ -173,14 +178,177 @@ def readSpec (f : File) (unc : Codec) (bs : Nat) (tbl : List (Nat × Nat)) (ino 
             match getBlock f unc ent.1 ent.2 bs with
             | .error e => (e, [])
             | .ok fb =>
-              if ino.fragOff + offset ≥ fb.2 then (errOutOfBounds, [])
-              else if fb.2 - (ino.fragOff + offset) < size then (errOutOfBounds, [])
-              else (0, acc ++ (fb.1.drop (ino.fragOff + offset)).take size)
+              let fo := wrap64 (ino.fragOff + offset)
+              if fo ≥ fb.2 then (errOutOfBounds, [])
+              else if fb.2 - fo < size then (errOutOfBounds, [])
+              else (0, acc ++ (fb.1.drop fo).take size)
 
 /-- the `(location, size word)` pairs `read` may hand to `precache_data_block` for this inode -/
 def accesses : List Nat → Nat → List (Nat × Nat)
   | [], _ => []
   | w :: rest, off => if isSparse w then accesses rest off else (off, w) :: accesses rest (off + onDisk w)
+
+/-! ### `sqfs_data_reader_get_block`, `sqfs_data_reader_get_fragment`, `sqfs_data_reader_load_fragment_table` -/
+
+/-- `for (i = 0; i < index; ++i) { off += on_disk(extra[i]); filesz -= block_size; }` (`filesz` wraps) -/
+def blockLoc (bs : Nat) : List Nat → Nat → Nat → Nat → Nat × Nat
+  | _, 0, off, filesz => (off, filesz)
+  | [], _ + 1, off, filesz => (off, filesz)
+  | w :: rest, i + 1, off, filesz => blockLoc bs rest i (off + onDisk w) (subWrap filesz bs)
+
+/-- `sqfs_data_reader_get_block(data, inode, index, &size, &out)`: the `size` bytes handed out.  Does not touch
+the caches. -/
+def getBlockApi (f : File) (unc : Codec) (bs : Nat) (ino : Inode) (index : Nat) : Except Status Bytes :=
+  match ino.blocks[index]? with
+  | none => .error errOutOfBounds                             -- index >= block count
+  | some w =>
+    let l := blockLoc bs ino.blocks index ino.blocksStart ino.fileSize
+    let unpacked := if l.2 < bs then l.2 else bs
+    match getBlock f unc l.1 w unpacked with
+    | .error e => .error e
+    | .ok b => .ok (b.1.take b.2)
+
+/-- `sqfs_data_reader_get_fragment(data, inode, &size, &out)` -/
+def getFragment (f : File) (unc : Codec) (d : DR) (ino : Inode) : Except Status Bytes × DR :=
+  if ino.blocks.length > (U64 - 1) / d.blockSize then (.error errOverflow, d)
+  else if ino.blocks.length * d.blockSize ≥ ino.fileSize then (.ok [], d)
+  else
+    let fragSz := ino.fileSize % d.blockSize
+    let r := precacheFrag f unc d ino.fragIdx
+    if r.1 ≠ 0 then (.error r.1, r.2)
+    else if ino.fragOff + fragSz > d.blockSize then (.error errOutOfBounds, r.2)
+    else
+      match r.2.fragBlock with
+      | none => (.error errInternal, r.2)                      -- unreachable
+      | some fb => (.ok ((fb.1.drop ino.fragOff).take fragSz), r.2)
+
+/-- cacheless reference of `get_fragment` -/
+def getFragmentSpec (f : File) (unc : Codec) (bs : Nat) (tbl : List (Nat × Nat)) (ino : Inode) : Except Status Bytes :=
+  if ino.blocks.length > (U64 - 1) / bs then .error errOverflow
+  else if ino.blocks.length * bs ≥ ino.fileSize then .ok []
+  else
+    match tbl[ino.fragIdx]? with
+    | none => .error errOutOfBounds
+    | some ent =>
+      match getBlock f unc ent.1 ent.2 bs with
+      | .error e => .error e
+      | .ok fb =>
+        if ino.fragOff + ino.fileSize % bs > bs then .error errOutOfBounds
+        else .ok ((fb.1.drop ino.fragOff).take (ino.fileSize % bs))
+
+/-- `sqfs_data_reader_load_fragment_table` with the table it reads from the image (`tbl`; the reading itself is
+`Sqfs.C10P.fragTableRead`): the cached fragment block is dropped.  A failed load leaves an empty table and
+`current_frag_index = 0`. -/
+def reload (d : DR) (tbl : Except Status (List (Nat × Nat))) : DR :=
+  match tbl with
+  | .ok t => { d with tbl := t, fragBlock := none, currentFrag := t.length }
+  | .error _ => { d with tbl := [], fragBlock := none, currentFrag := 0 }
+
+/-! ### the stream (`sqfs_data_reader_create_stream`) -/
+
+/-- `data_reader_istream_t`: `mem` is the `block_size` byte buffer (`none` = never written since `malloc`),
+`blocks` the block words not yet consumed (`blocks + blk_idx`) -/
+structure Stream where
+  blocks : List Nat
+  filesz : Nat
+  diskOffset : Nat
+  fragIdx : Nat
+  fragOff : Nat
+  mem : List (Option UInt8)
+  bufUsed : Nat
+  bufOff : Nat
+deriving DecidableEq, Repr
+
+/-- `sqfs_data_reader_create_stream` -/
+def streamOpen (bs : Nat) (ino : Inode) : Stream :=
+  { blocks := ino.blocks, filesz := ino.fileSize, diskOffset := ino.blocksStart, fragIdx := ino.fragIdx,
+    fragOff := ino.fragOff, mem := List.replicate bs none, bufUsed := 0, bufOff := 0 }
+
+inductive StreamR where
+  /-- return value 0 with `*out`/`*size` -/
+  | data (d : List (Option UInt8))
+  /-- return value 1 -/
+  | eof
+  | err (e : Status)
+deriving DecidableEq, Repr
+
+def writeMem (mem : List (Option UInt8)) (new : Bytes) : List (Option UInt8) := new.map some ++ mem.drop new.length
+
+/-- the `fail:` label: buffer freed, stream at its end -/
+def Stream.failed (s : Stream) : Stream := { s with mem := [], bufUsed := 0, bufOff := 0, filesz := 0 }
+
+/-- outcome of the part of `dr_stream_get_buffered_data` that fills the buffer -/
+inductive Fill where
+  /-- buffer filled: new buffer memory, new stream fields -/
+  | ok (mem : List (Option UInt8)) (s : Stream)
+  /-- `goto fail` -/
+  | fail (e : Status)
+  /-- the `return ret;` after a failed `precache_fragment_block` (D33: should be `goto fail`) -/
+  | early (e : Status)
+
+/-- the middle of `dr_stream_get_buffered_data`: the next block (`blk_idx < blk_count`) or the fragment tail into
+the buffer; `used` = `buf_used` -/
+def streamFill (f : File) (unc : Codec) (d : DR) (s : Stream) (used : Nat) : Fill × DR :=
+  match s.blocks with
+  | w :: rest =>
+    let n := onDisk w
+    let fin (mem : List (Option UInt8)) : Fill × DR :=
+      (.ok mem { s with blocks := rest, mem := mem, diskOffset := s.diskOffset + n, filesz := s.filesz - used }, d)
+    if n = 0 then fin (writeMem s.mem (zeros used))
+    else if n > d.blockSize then (.fail errOverflow, d)
+    else if isCompressed w then
+      match f.readAt s.diskOffset n with
+      | .error e => (.fail e, d)
+      | .ok raw =>
+        match unc raw used with
+        | .error e => (.fail e, d)
+        | .ok out =>
+          if out.length = 0 then (.fail errOverflow, d)
+          else fin (writeMem s.mem (out ++ zeros (used - out.length)))
+    else
+      match f.readAt s.diskOffset n with
+      | .error e => (.fail e, d)
+      | .ok raw => fin (writeMem s.mem (raw ++ zeros (used - n)))
+  | [] =>
+    let r := precacheFrag f unc d s.fragIdx
+    if r.1 ≠ 0 then (.early r.1, r.2)
+    else
+      match r.2.fragBlock with
+      | none => (.fail errInternal, r.2)                          -- unreachable
+      | some fb =>
+        if fb.2 < s.fragOff ∨ fb.2 - s.fragOff < used then (.fail errCorrupted, r.2)
+        else
+          let mem := writeMem s.mem ((fb.1.drop s.fragOff).take used)
+          (.ok mem { s with mem := mem, filesz := s.filesz - used }, r.2)
+
+/-- `dr_stream_get_buffered_data` -/
+def streamGet (sfix : Bool) (f : File) (unc : Codec) (d : DR) (s : Stream) : StreamR × Stream × DR :=
+  if s.bufOff < s.bufUsed then (.data ((s.mem.take s.bufUsed).drop s.bufOff), s, d)
+  else if s.filesz = 0 then (.eof, s.failed, d)
+  else
+    let used := if s.filesz < d.blockSize then s.filesz else d.blockSize
+    let s := { s with bufOff := 0, bufUsed := used }
+    match streamFill f unc d s used with
+    | (.ok mem s', d') => (.data (mem.take used), s', d')
+    | (.fail e, d') => (.err e, s.failed, d')
+    | (.early e, d') => (.err e, (if sfix then s.failed else s), d')
+
+/-- `dr_stream_advance_buffer` -/
+def streamAdvance (s : Stream) (count : Nat) : Stream :=
+  let diff := s.bufUsed - s.bufOff
+  { s with bufOff := s.bufOff + (if diff < count then diff else count) }
+
+/-- cacheless reference of `streamGet`: the fragment block is decoded afresh -/
+def streamGetSpec (sfix : Bool) (f : File) (unc : Codec) (bs : Nat) (tbl : List (Nat × Nat)) (s : Stream) : StreamR × Stream :=
+  let d0 : DR := { blockSize := bs, tbl := tbl, dataBlock := none, currentBlock := 0, currentWord := 0, fragBlock := none,
+                   currentFrag := tbl.length }
+  let r := streamGet sfix f unc d0 s
+  (r.1, r.2.1)
+
+/-! ### histories
+
+`Op`/`step`/`run` are the histories of positional reads only (also used, read-only, by C19's `Sqfs.C19R`);
+`OpX`/`stepX`/`runX` the histories over every entry point that touches the caches (`runX_embed` relates them). -/
 
 inductive Op where
   | read (ino : Inode) (offset size : Nat)
@@ -190,5 +358,25 @@ def step (kw : Bool) (f : File) (unc : Codec) (d : DR) : Op → DR
   | .read ino o n => (read kw f unc d ino o n).2
 
 def run (kw : Bool) (f : File) (unc : Codec) (d : DR) (h : List Op) : DR := h.foldl (step kw f unc) d
+
+inductive OpX where
+  | read (ino : Inode) (offset size : Nat)
+  | frag (ino : Inode)
+  /-- one `get_buffered_data` + `advance_buffer(count)` on a stream (the stream object is the caller's) -/
+  | sget (s : Stream) (count : Nat)
+  /-- `sqfs_data_reader_load_fragment_table` finding table `tbl` in the image -/
+  | reload (tbl : Except Status (List (Nat × Nat)))
+
+def stepX (kw sfix : Bool) (f : File) (unc : Codec) (d : DR) : OpX → DR
+  | .read ino o n => (read kw f unc d ino o n).2
+  | .frag ino => (getFragment f unc d ino).2
+  | .sget s _ => (streamGet sfix f unc d s).2.2
+  | .reload t => reload d t
+
+def runX (kw sfix : Bool) (f : File) (unc : Codec) (d : DR) (h : List OpX) : DR := h.foldl (stepX kw sfix f unc) d
+
+/-- a read-only history as an extended one -/
+def Op.toX : Op → OpX
+  | .read ino o n => .read ino o n
 
 end Sqfs.DataReader
